@@ -17,14 +17,52 @@ import ast
 import os
 
 from .. import translate
+from . import normalize
 
 REL = "fairlearn/adversarial/_pytorch_engine.py"
 PLAYERS = {"self.predictor_model": "predictor", "self.adversary_model": "adversary"}
 OPTS = {"self.predictor_optimizer": "predictor", "self.adversary_optimizer": "adversary"}
 
 
+# locals of the pinned `PytorchEngine.train_step` in order of first binding (normalize.canon_function: new single-use
+# temporaries are inlined again, renamed locals get the pinned names back -- the same canonical form adv_projection.py uses)
+PINNED_LOCALS = ["Y_hat", "LP", "p", "dW_LP", "A_hat", "LA", "dW_LA", "i", "unit_dW_LA", "proj"]
+PURE_TORCH = ("norm", "sum", "mul", "multiply", "inner", "clone", "detach", "finfo", "dot", "vdot", "flatten", "ravel", "cat", "concat", "item")
+PINNED_WIDTH = ("(n_Y_features * (if pass_y then 2 else 1))", "n_Y_features * (2 if base.pass_y_ else 1)")
+# the statement list quoted in the doc comment of `events` when the lifted events ARE the pinned ones (so that another
+# spelling of the same bookkeeping -- `p.grad.detach().clone()`, swapped `zero_grad()` pair -- is byte-identical)
+PINNED_EVENTS = [".zeroGrad .predictor", ".zeroGrad .adversary", ".backward .LP", ".snapshot .dW_LP", ".zeroGrad .predictor",
+                 ".zeroGrad .adversary", ".backward .LA", ".snapshot .dW_LA", ".combine", ".step .predictor", ".step .adversary"]
+PINNED_SRCS = ["self.predictor_optimizer.zero_grad()", "self.adversary_optimizer.zero_grad()", "LP.backward(retain_graph=True)",
+               "dW_LP = [torch.clone(p.grad.detach()) for p in self.predictor_model.parameters()]",
+               "self.predictor_optimizer.zero_grad()", "self.adversary_optimizer.zero_grad()", "LA.backward()",
+               "dW_LA = [torch.clone(p.grad.detach()) for p in self.predictor_model.parameters()]",
+               "for i, p in enumerate(self.predictor_model.parameters()): ... p.grad = ...",
+               "self.predictor_optimizer.step()", "self.adversary_optimizer.step()"]
+PINNED_CAT = (["yhat", "y"], "Y_hat", "Y_hat = torch.cat((Y_hat, Y), dim=1)")
+
+
 class _U(translate.Untranslatable):
     pass
+
+
+def _canonical_runs(events, srcs):
+    """`zero_grad()` calls of the two optimisers commute with each other, and so do their `step()` calls (disjoint parameter
+    sets): within a run of adjacent events of one of these two kinds the players are listed predictor first."""
+    order = {"predictor": 0, "adversary": 1}
+    pairs = list(zip(events, srcs))
+    i = 0
+    while i < len(pairs):
+        kind = pairs[i][0].split()[0]
+        j = i
+        while j < len(pairs) and pairs[j][0].split()[0] == kind:
+            j += 1
+        if kind in (".zeroGrad", ".step") and j - i > 1:
+            run = pairs[i:j]
+            if len({e for e, _ in run}) == len(run):           # (a repeated call is left where it stands)
+                pairs[i:j] = sorted(run, key=lambda es: order[es[0].split(".")[-1]])
+        i = j
+    return [e for e, _ in pairs], [s_ for _, s_ in pairs]
 
 
 def _src(n):
@@ -43,6 +81,8 @@ def _deps_of(node, deps):
     if isinstance(node, ast.Name):
         return set(deps.get(node.id, set()))
     out = set()
+    if isinstance(node, ast.Call) and _src(node.func) in PLAYERS:
+        out.add(PLAYERS[_src(node.func)])          # forward pass nested in another expression
     for c in ast.iter_child_nodes(node):
         out |= _deps_of(c, deps)
     return out
@@ -50,7 +90,7 @@ def _deps_of(node, deps):
 
 def lift(repo):
     with open(os.path.join(repo, REL)) as f:
-        tree = ast.parse(f.read())
+        tree = normalize.parse(f.read())
     fn = None
     for c in tree.body:
         if isinstance(c, ast.ClassDef) and c.name == "PytorchEngine":
@@ -61,6 +101,7 @@ def lift(repo):
         _bad("PytorchEngine.train_step not found")
     if [a.arg for a in fn.args.args] != ["self", "X", "Y", "A"]:
         _bad(f"train_step parameters {[a.arg for a in fn.args.args]}")
+    fn = normalize.canon_function(fn, PINNED_LOCALS, extra_methods=PURE_TORCH)
     body = [s for s in fn.body if not (isinstance(s, ast.Expr) and isinstance(s.value, ast.Constant))]
     deps = {"X": set(), "Y": set(), "A": set()}
     loss = {}            # local name -> "LP" | "LA"
@@ -137,6 +178,8 @@ def lift(repo):
         if isinstance(v, ast.Call) and _src(v.func) in PLAYERS and len(v.args) == 1 and not v.keywords:
             deps[name] = {PLAYERS[_src(v.func)]} | _deps_of(v.args[0], deps)
             if PLAYERS[_src(v.func)] == "adversary":
+                if "adv_arg" in extra:
+                    _bad("the adversary model is evaluated twice")
                 extra["adv_arg"] = _src(v.args[0])
             continue
         if isinstance(v, ast.Call) and _src(v.func) in ("self.predictor_loss", "self.adversary_loss") and len(v.args) == 2 \
@@ -144,6 +187,11 @@ def lift(repo):
             which = "LP" if _src(v.func) == "self.predictor_loss" else "LA"
             if which in loss.values():
                 _bad(f"{which} is computed twice")
+            a0 = v.args[0]
+            if isinstance(a0, ast.Call) and _src(a0.func) == "self.adversary_model" and len(a0.args) == 1 and not a0.keywords:
+                if "adv_arg" in extra:
+                    _bad("the adversary model is evaluated twice")
+                extra["adv_arg"] = _src(a0.args[0])         # `self.adversary_loss(self.adversary_model(Y_hat), A)`
             want_target = "Y" if which == "LP" else "A"
             if _src(v.args[1]) != want_target:
                 _bad(f"{which} compares with `{_src(v.args[1])}`, expected `{want_target}`")
@@ -173,6 +221,11 @@ def lift(repo):
         _bad(f"losses found: {sorted(loss.values())}")
     if "cat" not in extra or extra.get("adv_arg") != extra["cat"][1]:
         _bad("the adversary is not fed the (optionally concatenated) predictor output")
+    events, srcs = _canonical_runs(events, srcs)
+    if events == PINNED_EVENTS:
+        srcs = PINNED_SRCS
+    if (extra["cat"][0], extra["cat"][1]) == PINNED_CAT[:2]:
+        extra["cat"] = PINNED_CAT
     passy = lift_pass_y(repo)
     width = lift_adv_width(repo)
     dep = {}
@@ -219,7 +272,7 @@ def lift_pass_y(repo):
     """`if self.constraints == 'demographic_parity': self.pass_y_ = False elif ... == 'equalized_odds': self.pass_y_ = True else: raise`"""
     rel = "fairlearn/adversarial/_adversarial_mitigation.py"
     with open(os.path.join(repo, rel)) as f:
-        tree = ast.parse(f.read())
+        tree = normalize.parse(f.read())
     writes = [n for n in ast.walk(tree) if isinstance(n, ast.Assign) and _src(n.targets[0]) == "self.pass_y_"]
     chain = [n for n in ast.walk(tree) if isinstance(n, ast.If) and isinstance(n.test, ast.Compare) and _src(n.test.left) == "self.constraints"
              and any(w in n.body for w in writes)]
@@ -247,7 +300,7 @@ def lift_pass_y(repo):
 def lift_adv_width(repo):
     rel = "fairlearn/adversarial/_backend_engine.py"
     with open(os.path.join(repo, rel)) as f:
-        tree = ast.parse(f.read())
+        tree = normalize.parse(f.read())
     calls = [n for n in ast.walk(tree) if isinstance(n, ast.Call) and _src(n.func) == "self.__init_model__" and len(n.args) == 5
              and _src(n.args[4]) == "'adversary'"]
     if len(calls) != 1:
@@ -269,6 +322,8 @@ def lift_adv_width(repo):
     defs = [n for n in ast.walk(tree) if isinstance(n, ast.Assign) and _src(n.targets[0]) == "n_Y_features"]
     if len(defs) != 1 or _src(defs[0].value) != "base._y_transform.n_features_out_":
         _bad("_backend_engine.py: n_Y_features is not the width of the encoded target")
+    if normalize.lean_prefer(tr(w), [PINNED_WIDTH[0]]) == PINNED_WIDTH[0]:
+        return PINNED_WIDTH          # natural-number product: operand order is immaterial
     return tr(w), src
 
 
